@@ -12,18 +12,35 @@ observation = [[cs, aps]] + per call [outcome, [event, ...], cs, aps]
   event   = ["r"] (server receive() called, script exhausted) | ["r", message] | ["f", message, aps at that moment]
   outcome = ["ok"] | ["msg", message] | ["val", value] | ["exc", name, ...] | ["iter", [value...], ["limit"]|["done"]|["exc", ...]]
           | ["stop"] (StopAsyncIteration) | ["noiter"] (the case names a generator it never created)
+
+The denial response and the shortcuts (C11/Denial.v); these cases start with a string:
+case  = ["denial", scope type, ext, resp, script]     WebsocketDenialResponse(resp)(scope, receive, send)
+      | ["rr", scope type, ext, view, script]         request_response(view)(scope, receive, send)
+      | ["ws", scope type, script, calls]             websocket_session(view)(scope, receive, send), the view makes the calls
+  ext   = 0 no "extensions" key | 1 {} | 2 {"websocket.http.response": {}} | 3 {"other.extension": {}} (the model's 1)
+  resp  = ["none"] | ["r404"] Response(404) | ["text", status, body] PlainTextResponse | ["stream", [chunk...], suspend]
+          StreamResponse over an async generator (suspend 1: it yields to the event loop before every chunk, so the
+          disconnect watcher runs) | ["prog", [action...], raises] an ASGI application that performs the actions
+  action = ["s", message, catches] await send(message) (catches 1: ValueError / KeyError swallowed) | ["r"] await receive()
+  the model is handed every resp as its action list: for the real classes the list is recorded from a run of the bare
+  response (ENCODE); header lists travel as one bytes value b"name: value" joined by CR LF, booleans as 0 / 1
+observation  denial: [outcome, [event...], script messages left]     rr: [view calls] + the same
+             ws: ["http", outcome, [event...], left] | ["session", [cs, aps], per call ...] | ["assert"]
+  event = ["r"] | ["r", message] | ["f", message] | ["g", message] (the receive given to the inner application returned)
 """
+import asyncio
 import itertools
 import re
 
-from . import core
+from . import core, util
 
 PID = "C11"
 MANIFEST = dict(
     text="Theorems forwarded_legal / application_state_is_phase / transition_before_forward / illegal_raises_nothing_forwarded / "
          "sends_forward_or_raise / accept_consumes_connect / no_receive_after_disconnect / typed_receive_needs_connected_application / "
          "script_delivered_in_order / frames_in_order_once / close_closes / close_idempotent / states_monotone / "
-         "iter_step_is_typed_receive / finished_iterator_inert / iterator_finishes / iter_steps_equal_atomic_iter about the Gallina model of "
+         "iter_step_is_typed_receive / finished_iterator_inert / iterator_finishes / iter_steps_equal_atomic_iter / denial_legal / "
+         "denial_of_legal_response / denial_receive / ws_receive_call / shortcut_scope_dispatch about the Gallina model of "
          "baize.asgi.websocket.WebSocket (two three-valued states and the async generators of iter_text/iter_bytes created so far; "
          "receive/send/accept/close/receive_*/iter_*/send_* and the single steps (__anext__) and aclose of an open generator as "
          "state-exception-trace functions) hold for every call sequence - any call may come between two steps of a running "
@@ -32,11 +49,31 @@ MANIFEST = dict(
          "across the calls of a case) on every call sequence up to length 4 "
          "(thorough 6) over the public operations x every script connect, <=3 text/binary frames, disconnect in every position, "
          "every interleaving up to length 4 (thorough 5) of open/step/close of two generators with accept/receive/send/close, "
-         "plus malformed scripts and random long runs; the property itself is evaluated on the live observations.",
+         "plus malformed scripts and random long runs; the property itself is evaluated on the live observations. "
+         "WebsocketDenialResponse, request_response and websocket_session are modelled too (C11/Denial.v: the wrapped HTTP "
+         "response is any finite list of send / receive actions that then returns or raises; the scope's type and its "
+         "extensions): without a response or without the websocket.http.response extension exactly websocket.close is "
+         "forwarded, never an http.* event and never an extension event that was not offered; with both the response's "
+         "events arrive renamed and otherwise untouched, a legal HTTP response trace (own recogniser; linked to C05's "
+         "asgi_legal) gives a legal denial with nothing after the final body, any other event type raises ValueError; "
+         "the wrapped receive hands over http.disconnect exactly for the websocket.disconnect delivered, at once, and "
+         "drops everything else; request_response on a websocket scope is the denial of Response(404) without calling "
+         "the view, websocket_session on an http scope answers 404 without calling the view and on a websocket scope "
+         "is a session of the WebSocket model, any other scope type raises AssertionError. The real classes are driven "
+         "with None / Response(404) / PlainTextResponse / StreamResponse of 0-3 chunks (with and without a running "
+         "disconnect watcher) / scripted applications (illegal extra event, swallowed error, no body, body first, own "
+         "exception, asking twice) x the four shapes of scope[\"extensions\"] x server scripts with the disconnect in "
+         "every position x http / websocket / lifespan scopes.",
     note="Modelled, not verified: a server whose receive() never blocks mid-call (an exhausted script raises a marker exception "
          "instead of blocking), whose send() does not raise, messages as dicts of None/str/bytes/int values. The asserts are the "
          "guard: python -O removes them (configuration). no_receive_after_disconnect and frames_in_order_once assume the server "
-         "sends websocket.connect first.",
+         "sends websocket.connect first. Denial: one run of the wrapped response is a finite action list (a run that ends); "
+         "ws_send / ws_receive rename the type in the caller's dict in place (aliasing not modelled); a wrapped response that "
+         "asks for the disconnect again after it was told makes the wrapper ask the server again (premise of the last part of "
+         "denial_receive: it asks at most once, as baize's responses do); an inner response that sends no body or raises "
+         "midway leaves an incomplete (prefix of a legal) denial - the premise of denial_legal, not baize; a disconnect "
+         "watcher parked for ever on a silent server is not driven for the real StreamResponse (C06's domain); scope "
+         "without \"type\" or with a non-mapping \"extensions\" not modelled.",
     technique="Coq proof (per-call Hoare-style lemmas, induction over the call list with an invariant on the state pair and the "
               "remaining script; regular-language recognisers) + executable model/implementation correspondence",
     ref="5/C11")
@@ -50,12 +87,20 @@ RULE = ("cases: (a) every call sequence up to length 2 (thorough 3) over the 16-
         "accept / receive / send_text / close / iter_open text / iter_open bytes / iter_step 0 / iter_step 1 / iter_close 0 x 3 scripts, "
         "and accept, iter_open text followed by every sequence up to length 3 (thorough 4) over it x 6 (thorough 4) scripts, "
         "(f) random application loops (accept, open, then steps of the generators interleaved with other calls) of 6..30 calls; "
-        "non-trivial = some call raises, or a disconnect is delivered, or at least two events are forwarded")
+        "(g) WebsocketDenialResponse: {None, Response(404), two PlainTextResponse, StreamResponse of 0-3 chunks, 14 scripted "
+        "applications} x 4 extension shapes x 12 server scripts on a websocket scope, StreamResponse of 1-3 chunks with a "
+        "running disconnect watcher x the scripts that deliver a disconnect, a spread on http / lifespan scopes, random "
+        "scripted applications x random scripts, (h) request_response / websocket_session: views x http / websocket / "
+        "lifespan scopes x extension shapes x scripts; "
+        "non-trivial = some call raises, or a disconnect is delivered, or at least two events are forwarded "
+        "(denial and shortcut cases: something is forwarded or raised)")
 TRUSTED = ["scripted ASGI server of the harness: receive() hands out the script in order and raises a marker exception when it "
            "is exhausted; send() records the message and application_state at that moment"]
 ASSUMPTIONS = ["assert statements are executed (no python -O)",
                "the server's send() does not raise and receive() does not block in the middle of a call",
                "no_receive_after_disconnect / frames_in_order_once: the first server event is websocket.connect",
+               "denial_legal (complete legal denial): the wrapped response's own trace is a legal HTTP response trace and it "
+               "runs to its end; denial_receive (no receive after the disconnect): the wrapped response asks at most once",
                "the calls of a case are made one after the other (one task): a generator of iter_text()/iter_bytes() is "
                "stepped again, and any other call is made, only after the previous call returned"]
 EXHAUSTIVE = {"quick": True, "thorough": True}
@@ -310,6 +355,8 @@ def cases(tier, rng):
                 yield "exhaustive-generators", [sc, [list(c) for c in LOOP_PREFIX] + calls]
     for _ in range(3000 if quick else 30000):
         yield "random-loop", [rand_script(rng), rand_loop(rng)]
+    yield from denial_cases(tier, rng)
+    yield from shortcut_cases(tier, rng)
 
 
 def search_cases(tier, rng, mism):
@@ -375,7 +422,7 @@ def drive(coro):
     raise RuntimeError("coroutine suspended")
 
 
-def impl(case):
+def impl_session(case):
     from baize.asgi.shortcut import websocket_session
     from baize.asgi.websocket import WebSocketDisconnect, WebSocketState
     st = {WebSocketState.CONNECTING: 0, WebSocketState.CONNECTED: 1, WebSocketState.DISCONNECTED: 2}
@@ -521,7 +568,7 @@ def expected_forward(c):
     return None
 
 
-def oracle(case, obs):
+def oracle_session(case, obs):
     if obs and obs[0] == "driver-exception":
         return ("driver-" + str(obs[1]), "driving the call sequence failed: %s %s" % (obs[1], obs[2]))
     script, calls = case
@@ -672,7 +719,7 @@ def oracle(case, obs):
     return None
 
 
-def nontrivial(case, obs):
+def nontrivial_session(case, obs):
     if not obs or obs[0] == "driver-exception":
         return False
     nf = sum(1 for rec in obs[1:] for e in rec[1] if e[0] == "f")
@@ -680,7 +727,7 @@ def nontrivial(case, obs):
     return nf >= 2 or disc or any(raised(rec[0]) for rec in obs[1:])
 
 
-def shrink(case):
+def shrink_session(case):
     script, calls = case
     for i in range(len(calls)):
         yield [script, calls[:i] + calls[i + 1:]]
@@ -689,6 +736,618 @@ def shrink(case):
     for i, c in enumerate(calls):
         if c[0] in ("iter_text", "iter_bytes") and c[1] > 0:
             yield [script, calls[:i] + [[c[0], c[1] - 1]] + calls[i + 1:]]
+
+
+# ================================================================ the denial response and the shortcuts
+
+EXT_SCOPE = {0: None, 1: {}, 2: {"websocket.http.response": {}}, 3: {"other.extension": {}}}
+WS_CLOSE_ONLY = [["websocket.close"], []]
+
+
+def hmsg(t, **fields):
+    """a message of a scripted application; entries in key order"""
+    return [[] if t is None else [t], [[k, fields[k]] for k in sorted(fields)]]
+
+
+def h_start(status=403, **more):
+    return hmsg("http.response.start", headers=B("content-type: text/plain"), status=I(status), **more)
+
+
+def h_body(body="", more=0):
+    return hmsg("http.response.body", body=B(body), more_body=I(more))
+
+
+def snd(m, catches=0):
+    return ["s", m, catches]
+
+
+RCV = ["r"]
+TRAILERS = hmsg("http.response.trailers", headers=B(""))
+
+PROGS = [
+    ["prog", [snd(h_start()), RCV, snd(h_body("no", 1)), snd(h_body())], 0],            # legal, waits for the disconnect
+    ["prog", [snd(h_start(200)), snd(TRAILERS), snd(h_body())], 0],                      # an illegal extra event type
+    ["prog", [snd(h_start(200)), snd(TRAILERS, 1), snd(h_body())], 0],                   # ... swallowed by the application
+    ["prog", [snd(h_start(500)), snd(h_body())], 1],                                     # raises after a complete response
+    ["prog", [RCV, RCV, snd(h_start()), snd(h_body())], 0],                              # asks for the disconnect twice
+    ["prog", [snd(hmsg(None, status=I(200)))], 0],                                       # an event without "type"
+    ["prog", [], 0],                                                                     # sends nothing
+    ["prog", [snd(h_start())], 0],                                                       # no body
+    ["prog", [snd(h_body())], 0],                                                        # body first
+    ["prog", [snd(hmsg("websocket.close", code=I(1000)))], 0],                           # speaks websocket itself
+    ["prog", [snd(h_start()), snd(h_body()), snd(h_body())], 0],                         # something after the final body
+    ["prog", [snd(h_start(403, trailers=I(1))), snd(h_body("a", 1)), snd(h_body("b", 1)), snd(h_body("", 0))], 0],
+    ["prog", [snd(h_start()), snd(hmsg("http.response.body"))], 0],                      # body entries left to their defaults
+    ["prog", [snd(h_start()), RCV], 1],                                                  # raises midway
+]
+REALS = [["none"], ["r404"], ["text", 403, "denied"], ["text", 200, ""],
+         ["stream", [], 0], ["stream", ["a"], 0], ["stream", ["a", "bc"], 0], ["stream", ["a", "", "c"], 0]]
+WATCHED = [["stream", ["a"], 1], ["stream", ["a", "b"], 1], ["stream", ["a", "b", "c"], 1]]
+
+
+def denial_scripts():
+    a, b = frame("t", "a"), frame("b", "b")
+    typeless = [[], [["code", I(1000)]]]
+    return [[], [CONNECT], [disconnect()], [CONNECT, disconnect()], [CONNECT, a, disconnect(1001, S("bye")), b],
+            [CONNECT, a, b], [disconnect(), disconnect(1001)], [CONNECT, typeless, disconnect()], [typeless],
+            [a, b, disconnect(1005, S("")), CONNECT], [CONNECT, a, b, a, disconnect()],
+            [[["http.disconnect"], []], [["websocket.close"], []], disconnect()]]
+
+
+def delivers_disconnect(script):
+    """the wrapped receive returns on this script: a disconnect, every event before it has a type"""
+    for m in script:
+        if not m[0]:
+            return False
+        if m[0][0] == "websocket.disconnect":
+            return True
+    return False
+
+
+H_TYPES = ["http.response.start", "http.response.body", "http.response.body", "http.response.body", "http.response.trailers",
+           "http.response.zerocopysend", "websocket.close", "websocket.http.response.start", "http.disconnect", "", None]
+
+
+def rand_prog(rng):
+    acts = []
+    if rng.random() < 0.7:       # mostly a legal response with noise
+        acts.append(snd(h_start(rng.choice([200, 403, 404, 500]))))
+        n = rng.randrange(0, 4)
+        for i in range(n):
+            acts.append(snd(h_body(rng.choice(["", "x", "yz"]), 1)))
+        acts.append(snd(h_body(rng.choice(["", "end"]), 0)))
+        for _ in range(rng.randrange(0, 3)):
+            acts.insert(rng.randrange(0, len(acts) + 1), RCV)
+        if rng.random() < 0.4:
+            t = rng.choice(H_TYPES)
+            acts.insert(rng.randrange(0, len(acts) + 1), snd(hmsg(t, more_body=rng.choice([I(0), I(1), N_])), rng.randrange(2)))
+    else:
+        for _ in range(rng.randrange(0, 6)):
+            if rng.random() < 0.3:
+                acts.append(RCV)
+            else:
+                t = rng.choice(H_TYPES)
+                f = {}
+                if rng.random() < 0.6:
+                    f["more_body"] = rng.choice([I(0), I(1), N_, S(""), S("x")])
+                if rng.random() < 0.5:
+                    f["body"] = B(rng.choice(["", "b"]))
+                if rng.random() < 0.3:
+                    f["status"] = I(rng.choice([200, 404]))
+                acts.append(snd(hmsg(t, **f), rng.randrange(2)))
+    return ["prog", [list(a) for a in acts], 1 if rng.random() < 0.15 else 0]
+
+
+def denial_cases(tier, rng):
+    quick = tier == "quick"
+    scripts = denial_scripts()
+    for resp in REALS + PROGS:
+        for ext in (0, 1, 2, 3):
+            for sc in scripts:
+                yield "denial", ["denial", "websocket", ext, resp, sc]
+    for resp in WATCHED:
+        for ext in (0, 2):
+            for sc in scripts:
+                if delivers_disconnect(sc):
+                    yield "denial", ["denial", "websocket", ext, resp, sc]
+    for stype in ("http", "lifespan", "websockets", ""):
+        for resp in (REALS[0], REALS[1], REALS[6], PROGS[0]):
+            for ext in (0, 2):
+                yield "denial", ["denial", stype, ext, resp, scripts[4]]
+    for _ in range(1500 if quick else 15000):
+        sc = rand_script(rng) if rng.random() < 0.7 else rng.choice(scripts)
+        yield "denial-random", ["denial", "websocket", rng.choice([2, 2, 2, 0, 1, 3]), rand_prog(rng), sc]
+
+
+HTTP_SCRIPTS = [[], [[["http.request"], [["body", B("")], ["more_body", I(0)]]]],
+                [[["http.request"], [["body", B("x")], ["more_body", I(0)]]], [["http.disconnect"], []]]]
+VIEWS = [["r404"], ["text", 200, "hello"], ["text", 403, ""], ["stream", ["a", "bc"], 0], PROGS[0], PROGS[1], PROGS[3], PROGS[6]]
+WS_CALLS = [[], [["accept", N_]], [["accept", N_], ["send_text", S("x")], ["receive_text"], ["close", I(1000), N_]],
+            [["close", I(1000), N_], ["send_text", S("late")]], [["receive"], ["receive"], ["iter_text", 3]]]
+
+
+def shortcut_cases(tier, rng):
+    wss = denial_scripts()
+    for view in VIEWS:
+        for ext in (0, 1, 2, 3):
+            for sc in wss[:6]:
+                yield "request_response", ["rr", "websocket", ext, view, sc]
+        for sc in HTTP_SCRIPTS:
+            for ext in (0, 2):
+                yield "request_response", ["rr", "http", ext, view, sc]
+        for stype in ("lifespan", ""):
+            yield "request_response", ["rr", stype, 2, view, []]
+    for calls in WS_CALLS:
+        for sc in HTTP_SCRIPTS + wss[:2]:
+            yield "websocket_session", ["ws", "http", sc, calls]
+        for sc in wss[:7]:
+            yield "websocket_session", ["ws", "websocket", sc, calls]
+        for stype in ("lifespan", ""):
+            yield "websocket_session", ["ws", stype, wss[3], calls]
+    for _ in range(300 if tier == "quick" else 3000):
+        yield "websocket_session", ["ws", "websocket", rand_script(rng), rand_calls(rng, rng.randrange(1, 8))]
+        yield "request_response", ["rr", rng.choice(["websocket", "websocket", "http"]), rng.randrange(4), rand_prog(rng),
+                                   rng.choice(wss)]
+
+
+# ---------------------------------------------------------------- driving the real classes
+
+
+class InnerError(Exception):
+    """the scripted application's own exception"""
+
+
+def c_hvalue(v):
+    """values of HTTP events: booleans as 0 / 1, a header list as one bytes value"""
+    if isinstance(v, bool):
+        return ["i", int(v)]
+    if isinstance(v, (list, tuple)):
+        try:
+            return ["b", b"\r\n".join(bytes(k) + b": " + bytes(x) for k, x in v).decode("latin-1")]
+        except Exception:
+            return ["?", repr(v)[:60]]
+    return c_value(v)
+
+
+def c_hmsg(m):
+    if not isinstance(m, dict):
+        return ["?", repr(m)[:60]]
+    return [[m["type"]] if "type" in m else [], [[k, c_hvalue(m[k])] for k in sorted(m) if k != "type"]]
+
+
+def prog_app(actions, raises):
+    async def app(scope, receive, send):
+        for a in actions:
+            if a[0] == "s":
+                try:
+                    await send(py_msg(a[1]))
+                except (ValueError, KeyError):
+                    if not a[2]:
+                        raise
+            else:
+                await receive()
+        if raises:
+            raise InnerError()
+    return app
+
+
+def build_app(recipe):
+    """a fresh application object (the response classes keep state)"""
+    from baize.asgi import responses as R
+    k = recipe[0]
+    if k == "r404":
+        return R.Response(404)
+    if k == "text":
+        return R.PlainTextResponse(recipe[2].encode("latin-1"), recipe[1])
+    if k == "stream":
+        chunks, suspend = [c.encode("latin-1") for c in recipe[1]], recipe[2]
+
+        async def agen():
+            for c in chunks:
+                if suspend:
+                    await asyncio.sleep(0)
+                yield c
+        return R.StreamResponse(agen())
+    if k == "prog":
+        return prog_app(recipe[1], recipe[2])
+    raise ValueError(recipe)
+
+
+def run_app(coro_fn):
+    """run an application call on the worker's event loop; cancelled helper tasks get their turn"""
+    async def main():
+        try:
+            return await coro_fn()
+        finally:
+            for _ in range(3):
+                await asyncio.sleep(0)
+    lp = util.loop()
+    lp.set_exception_handler(lambda l, c: None)
+    return lp.run_until_complete(main())
+
+
+def make_scope(stype, ext):
+    scope = {"type": stype, "path": "/", "headers": [], "query_string": b"", "subprotocols": [], "method": "GET"}
+    if EXT_SCOPE[ext] is not None:
+        scope["extensions"] = dict(EXT_SCOPE[ext])
+    return scope
+
+
+def recipe_actions(recipe, script):
+    """what the application does with the two callables it is given, as the model's action list.  A scripted
+    application is its own list; a real response class is run bare, against a receive that answers
+    http.disconnect (when the case's server would deliver a disconnect) and a recording send."""
+    if recipe[0] == "prog":
+        return [[list(a) for a in recipe[1]], recipe[2]]
+    acts = []
+    answers = delivers_disconnect(script)
+
+    async def brecv():
+        acts.append(["r"])
+        if answers:
+            return {"type": "http.disconnect"}
+        raise Blocked()
+
+    async def bsend(m):
+        acts.append(["s", c_hmsg(m), 0])
+
+    raises = 0
+    try:
+        run_app(lambda: build_app(recipe)(make_scope("http", 0), brecv, bsend))
+    except Exception:
+        raises = 1
+    return [acts, raises]
+
+
+def ENCODE(case):
+    if not isinstance(case[0], str) or case[0] == "ws":
+        return core.enc_line(case)
+    kind, stype, ext, resp, script = case
+    inner = [] if resp[0] == "none" else recipe_actions(resp, script)
+    return core.enc_line([kind, stype, 1 if ext == 3 else ext, inner, script])
+
+
+def c_hexc(e):
+    if isinstance(e, ValueError):
+        return ["exc", "ValueError", str(e)]
+    if isinstance(e, KeyError):
+        return ["exc", "KeyError", e.args[0] if e.args and isinstance(e.args[0], str) else repr(e.args)]
+    if isinstance(e, InnerError):
+        return ["exc", "Inner"]
+    return ["exc", type(e).__name__]
+
+
+class Server:
+    """the scripted server of a denial / shortcut case"""
+
+    def __init__(self, script):
+        self.msgs = [py_msg(m) for m in script]
+        self.pos = 0
+        self.log = []
+
+    async def receive(self):
+        if self.pos >= len(self.msgs):
+            self.log.append(["r"])
+            raise Blocked()
+        m = self.msgs[self.pos]
+        self.pos += 1
+        self.log.append(["r", c_msg(m)])
+        return m
+
+    async def send(self, m):
+        self.log.append(["f", c_hmsg(m)])
+
+    def spy(self, app):
+        """the application, with what its receive returns written to the log"""
+        log = self.log
+
+        async def spied(scope, receive, send):
+            async def r():
+                m = await receive()
+                log.append(["g", c_hmsg(m)])
+                return m
+            await app(scope, r, send)
+        return spied
+
+    def result(self, coro_fn):
+        try:
+            r = run_app(coro_fn)
+            out = ["ok"] if r is None else ["?", repr(r)[:60]]
+        except Exception as e:
+            out = c_hexc(e)
+        return [out, self.log, len(self.msgs) - self.pos]
+
+
+def impl_denial(case):
+    from baize.asgi.websocket import WebsocketDenialResponse
+    _, stype, ext, resp, script = case
+    srv = Server(script)
+    inner = None if resp[0] == "none" else srv.spy(build_app(resp))
+    scope = make_scope(stype, ext)
+    return srv.result(lambda: WebsocketDenialResponse(inner)(scope, srv.receive, srv.send))
+
+
+def impl_rr(case):
+    from baize.asgi.shortcut import request_response
+    _, stype, ext, viewr, script = case
+    srv = Server(script)
+    called = [0]
+
+    async def view(request):
+        called[0] += 1
+        return srv.spy(build_app(viewr))
+
+    scope = make_scope(stype, ext)
+    r = srv.result(lambda: request_response(view)(scope, srv.receive, srv.send))
+    return [called[0]] + r
+
+
+def impl_ws(case):
+    from baize.asgi.shortcut import websocket_session
+    _, stype, script, calls = case
+    if stype == "websocket":
+        return ["session"] + impl_session([script, calls])
+    srv = Server(script)
+    called = [0]
+
+    async def view(ws):
+        called[0] += 1
+
+    r = srv.result(lambda: websocket_session(view)(make_scope(stype, 0), srv.receive, srv.send))
+    if called[0]:
+        return ["session", "view-called-on", stype] + r
+    if r == [["exc", "AssertionError"], [], len(script)]:
+        return ["assert"]
+    return ["http"] + r
+
+
+def impl(case):
+    if not isinstance(case[0], str):
+        return impl_session(case)
+    return {"denial": impl_denial, "rr": impl_rr, "ws": impl_ws}[case[0]](case)
+
+
+# ---------------------------------------------------------------- the property on the live observations (denial, shortcuts)
+
+
+def h_more(m):
+    """message.get("more_body", False) by truth value, on the wire form"""
+    v = fields(m).get("more_body")
+    return v is not None and v not in (["n"], ["s", ""], ["b", ""], ["i", 0])
+
+
+def http_legal(msgs):
+    """start (body more)* (body final) over http.response.* messages in wire form"""
+    if not msgs or mtype(msgs[0]) != "http.response.start":
+        return False
+    bodies = msgs[1:]
+    if not bodies or any(mtype(b) != "http.response.body" for b in bodies):
+        return False
+    return all(h_more(b) for b in bodies[:-1]) and not h_more(bodies[-1])
+
+
+def denial_shape(fw, complete):
+    """websocket.http.response.start, then bodies of which only the last may be final; complete: and it is"""
+    if not fw:
+        return not complete
+    if mtype(fw[0]) != "websocket.http.response.start":
+        return False
+    bodies = fw[1:]
+    if any(mtype(b) != "websocket.http.response.body" for b in bodies):
+        return False
+    if any(not h_more(b) for b in bodies[:-1]):
+        return False
+    return not complete or (bool(bodies) and not h_more(bodies[-1]))
+
+
+def expected_real(recipe):
+    """(status, body pieces) the real response classes answer with"""
+    if recipe[0] == "r404":
+        return 404, [""]
+    if recipe[0] == "text":
+        return recipe[1], [recipe[2]]
+    return 200, None
+
+
+def check_receive_side(where, script, events, asks_once):
+    """the server's events in order; http.disconnect handed over exactly for a delivered websocket.disconnect"""
+    delivered, disc_seen, pending = 0, False, None
+    for e in events:
+        if pending is not None:
+            want = [["http.disconnect"], pending[1]]
+            if e != ["g", want]:
+                return ("disconnect-not-handed-over", "%s: websocket.disconnect %r was delivered, the next event is %r "
+                        "instead of handing over %r" % (where, pending, e, want))
+            pending = None
+            continue
+        if e[0] == "g":
+            return ("handed-over-without-disconnect", "%s: the inner response's receive returned %r although the server "
+                    "had not just delivered websocket.disconnect" % (where, e[1]))
+        if e[0] == "r":
+            if disc_seen and asks_once:
+                return ("receive-after-disconnect", "%s: the server's receive() was called after websocket.disconnect "
+                        "had been delivered" % where)
+            if len(e) == 1:
+                if delivered != len(script):
+                    return ("harness-script", "%s: blocked before the script ended" % where)
+            else:
+                if delivered >= len(script) or e[1] != script[delivered]:
+                    return ("delivery-order", "%s: server delivered %r, script position %d" % (where, e[1], delivered))
+                delivered += 1
+                if mtype(e[1]) == "websocket.disconnect":
+                    disc_seen, pending = True, e[1]
+    if pending is not None:
+        return ("disconnect-not-handed-over", "%s: websocket.disconnect was delivered and not handed over" % where)
+    return None
+
+
+def oracle_denial(case, obs, where=None, resp=None):
+    _, stype, ext, resp_case, script = case
+    resp = resp_case if resp is None else resp
+    where = where or "WebsocketDenialResponse(%r) on a %r scope, extensions %r" % (resp, stype, EXT_SCOPE[ext])
+    if len(obs) != 3:
+        return ("short-observation", "%s: %r" % (where, obs))
+    out, events, left = obs
+    fw = [e[1] for e in events if e[0] == "f"]
+    nrecv = sum(1 for e in events if e[0] == "r")
+    if stype != "websocket":
+        if out != ["exc", "AssertionError"] or events:
+            return ("denial-on-foreign-scope", "%s: outcome %r, events %r; expected AssertionError and nothing else"
+                    % (where, out, events))
+        return None
+    for m in fw:
+        t = mtype(m)
+        if t is None or t.startswith("http."):
+            return ("http-event-on-websocket", "%s forwarded %r to a websocket server" % (where, m))
+    plain = resp[0] == "none" or ext != 2
+    if plain:
+        for m in fw:
+            if (mtype(m) or "").startswith("websocket.http.response"):
+                return ("extension-event-not-offered", "%s forwarded %r although %s" % (
+                    where, m, "no response was given" if resp[0] == "none" else "the server does not offer websocket.http.response"))
+        if out != ["ok"] or events != [["f", WS_CLOSE_ONLY]]:
+            return ("denial-not-plain-close", "%s: outcome %r, events %r; expected exactly websocket.close" % (where, out, events))
+        if left != len(script):
+            return ("denial-consumed-events", "%s: %d server events were consumed" % (where, len(script) - left))
+        return None
+    # a response through the extension
+    for m in fw:
+        if mtype(m) not in ("websocket.http.response.start", "websocket.http.response.body"):
+            return ("foreign-event-forwarded", "%s forwarded %r" % (where, m))
+    if resp[0] == "prog":
+        sent = [a[1] for a in resp[1] if a[0] == "s"]
+        legal_inner = http_legal(sent)
+        asks = sum(1 for a in resp[1] if a[0] == "r")
+    else:
+        sent, legal_inner, asks = None, True, 1
+    if legal_inner:
+        if out[:2] == ["exc", "ValueError"]:
+            return ("legal-response-refused", "%s: the response's events are a legal HTTP response, yet %r" % (where, out))
+        ended = out in (["ok"], ["exc", "Inner"])
+        if not denial_shape(fw, ended):
+            return ("illegal-denial-sequence", "%s (outcome %r) forwarded %r: not %s websocket.http.response.start "
+                    "(body more)* (body final)" % (where, out, fw, "a complete" if ended else "a prefix of"))
+        if ended and sent is not None:
+            want = [[["websocket." + mtype(m)], m[1]] for m in sent]
+            if fw != want:
+                return ("denial-not-transparent", "%s forwarded %r, the response sent %r" % (where, fw, sent))
+        if ended and sent is None:
+            status, pieces = expected_real(resp)
+            got_status = fields(fw[0]).get("status")
+            got = [fields(b).get("body", ["b", ""])[1] for b in fw[1:]]
+            if got_status != ["i", status]:
+                return ("denial-wrong-status", "%s: status %r, expected %d" % (where, got_status, status))
+            if pieces is not None and got != pieces:
+                return ("denial-wrong-body", "%s: body events %r, expected %r" % (where, got, pieces))
+            if pieces is None and (got[-1] != "" or got[:-1] != list(resp[1])[:len(got) - 1]
+                                   or (not resp[2] and len(got) != len(resp[1]) + 1)):
+                return ("denial-wrong-body", "%s: body events %r for chunks %r" % (where, got, resp[1]))
+    elif out[:2] == ["exc", "ValueError"]:
+        # the first unsupported event the application does not swallow itself
+        bad = [a[1] for a in resp[1] if a[0] == "s" and not a[2]
+               and mtype(a[1]) not in ("http.response.start", "http.response.body")]
+        if not bad or out[2] != "Unsupported message type: %s" % mtype(bad[0]):
+            return ("wrong-valueerror", "%s raised %r; unsupported events sent: %r" % (where, out, bad))
+    r = check_receive_side(where, script, events, asks <= 1)
+    if r:
+        return r
+    if left != len(script) - sum(1 for e in events if e[0] == "r" and len(e) == 2):
+        return ("script-accounting", "%s: %d events left" % (where, left))
+    if resp[0] in ("r404", "text") and nrecv:
+        return ("needless-receive", "%s asked the server %d times" % (where, nrecv))
+    return None
+
+
+def oracle_rr(case, obs):
+    _, stype, ext, view, script = case
+    where = "request_response(view -> %r) on a %r scope, extensions %r" % (view, stype, EXT_SCOPE[ext])
+    if len(obs) != 4:
+        return ("short-observation", "%s: %r" % (where, obs))
+    called, out, events, left = obs
+    fw = [e[1] for e in events if e[0] == "f"]
+    if stype == "websocket":
+        if called:
+            return ("view-called-on-websocket", "%s: the view was called %d times" % (where, called))
+        if out == ["exc", "AssertionError"] and not events:
+            return ("websocket-not-denied", "%s raised AssertionError instead of denying the connection" % where)
+        return oracle_denial(["denial", stype, ext, ["r404"], script], obs[1:], where, ["r404"])
+    if stype == "http":
+        if called != 1:
+            return ("view-not-called", "%s: the view was called %d times" % (where, called))
+        if view[0] == "prog":
+            sent = [a[1] for a in view[1] if a[0] == "s"]
+            if out in (["ok"], ["exc", "Inner"]) and fw != sent:
+                return ("response-not-transparent", "%s forwarded %r, the response sent %r" % (where, fw, sent))
+        elif view[0] in ("r404", "text"):
+            status, pieces = expected_real(view)
+            if out != ["ok"] or len(fw) != 2 or fields(fw[0]).get("status") != ["i", status] \
+                    or fields(fw[1]).get("body") != ["b", pieces[0]] or h_more(fw[1]):
+                return ("response-not-transparent", "%s: outcome %r, forwarded %r" % (where, out, fw))
+        return None
+    if called or out != ["exc", "AssertionError"] or events:
+        return ("foreign-scope-served", "%s: view calls %d, outcome %r, events %r; expected AssertionError and nothing else"
+                % (where, called, out, events))
+    return None
+
+
+START_404 = [["http.response.start"], [["headers", B("content-length: 0")], ["status", I(404)]]]
+BODY_EMPTY = [["http.response.body"], [["body", B("")], ["more_body", I(0)]]]
+
+
+def oracle_ws(case, obs):
+    _, stype, script, calls = case
+    where = "websocket_session(view) on a %r scope" % stype
+    if stype == "websocket":
+        if not obs or obs[0] != "session":
+            return ("websocket-not-served", "%s gave %r" % (where, obs[:3]))
+        return oracle_session([script, calls], obs[1:])
+    if stype == "http":
+        if obs != ["http", ["ok"], [["f", START_404], ["f", BODY_EMPTY]], len(script)]:
+            return ("http-not-answered-404", "%s gave %r; expected a 404 with an empty body, the view not called, no "
+                    "receive()" % (where, obs))
+        return None
+    if obs != ["assert"]:
+        return ("foreign-scope-served", "%s gave %r; expected AssertionError and nothing else" % (where, obs))
+    return None
+
+
+def oracle(case, obs):
+    if not isinstance(case[0], str):
+        return oracle_session(case, obs)
+    if obs and obs[0] == "driver-exception":
+        return ("driver-" + str(obs[1]), "driving the case failed: %s %s" % (obs[1], obs[2]))
+    return {"denial": oracle_denial, "rr": oracle_rr, "ws": oracle_ws}[case[0]](case, obs)
+
+
+def nontrivial(case, obs):
+    if not isinstance(case[0], str):
+        return nontrivial_session(case, obs)
+    if not obs or obs[0] == "driver-exception":
+        return False
+    if case[0] == "ws":
+        return obs[0] != "session" or nontrivial_session([case[2], case[3]], obs[1:])
+    out, events = obs[-3], obs[-2]
+    return out != ["ok"] or any(e[0] == "f" for e in events)
+
+
+def shrink(case):
+    if not isinstance(case[0], str):
+        yield from shrink_session(case)
+        return
+    if case[0] == "ws":
+        for c in shrink_session([case[2], case[3]]):
+            yield ["ws", case[1]] + c
+        return
+    kind, stype, ext, resp, script = case
+    for i in range(len(script)):
+        yield [kind, stype, ext, resp, script[:i] + script[i + 1:]]
+    if resp[0] == "prog":
+        for i in range(len(resp[1])):
+            yield [kind, stype, ext, ["prog", resp[1][:i] + resp[1][i + 1:], resp[2]], script]
+        if resp[2]:
+            yield [kind, stype, ext, ["prog", resp[1], 0], script]
+    if resp[0] == "stream" and resp[1]:
+        yield [kind, stype, ext, ["stream", resp[1][:-1], resp[2]], script]
 
 
 if __name__ == "__main__":
